@@ -458,6 +458,11 @@ class SkelEval(Eval):
     def ev_bin(self, t):
         a, b = self.norm_flags(self.ev(t[2])), self.norm_flags(self.ev(t[3]))
         if t[1] in ('<', '>', '<=', '>='):
+            # a size threshold (a length / count / index compared with an integer literal of 2 or more) is true or false on every model world alike:
+            # evaluating it would hide whatever it guards from all world-based rules - it is reported as undecided instead
+            for side in (t[2], t[3]):
+                if side[0] == 'lit' and side[1] == 'int' and abs(int(str(side[2]).split('_')[0].rstrip('iusze') or 0)) >= 2:
+                    raise Unbound(('size threshold: the model worlds cannot decide what it guards', t))
             x, y = (a.value if isinstance(a, Num) else a), (b.value if isinstance(b, Num) else b)
             if isinstance(x, (int, float)) and isinstance(y, (int, float)) and not isinstance(x, bool) and not isinstance(y, bool):
                 return {'<': x < y, '>': x > y, '<=': x <= y, '>=': x >= y}[t[1]]
